@@ -25,6 +25,19 @@ use vharness::common::*;
 include!("../c14_queries.rs");
 include!("../c14_observed.rs");
 include!("../c14_clauses.rs");
+include!("../c14_frames.rs");
+
+/// the largest single allocation requested since the counter was reset (frame stream)
+struct TrackingAlloc;
+static MAX_ALLOC: AtomicUsize = AtomicUsize::new(0);
+unsafe impl std::alloc::GlobalAlloc for TrackingAlloc {
+    unsafe fn alloc(&self, l: std::alloc::Layout) -> *mut u8 { MAX_ALLOC.fetch_max(l.size(), Ordering::Relaxed); std::alloc::System.alloc(l) }
+    unsafe fn alloc_zeroed(&self, l: std::alloc::Layout) -> *mut u8 { MAX_ALLOC.fetch_max(l.size(), Ordering::Relaxed); std::alloc::System.alloc_zeroed(l) }
+    unsafe fn dealloc(&self, p: *mut u8, l: std::alloc::Layout) { std::alloc::System.dealloc(p, l) }
+    unsafe fn realloc(&self, p: *mut u8, l: std::alloc::Layout, n: usize) -> *mut u8 { MAX_ALLOC.fetch_max(n, Ordering::Relaxed); std::alloc::System.realloc(p, l, n) }
+}
+#[global_allocator]
+static GLOBAL: TrackingAlloc = TrackingAlloc;
 
 static PANICS: AtomicUsize = AtomicUsize::new(0);
 static LAST_PANIC: Mutex<String> = Mutex::new(String::new());
@@ -562,6 +575,9 @@ async fn main() {
     query_streams(&mut rng, &mut out, &mut stats).await;
     // ---- the clause language on one entity, parameters of every class and length; deletions
     clause_streams(&mut rng, &mut out, &mut stats).await;
+    // ---- frames from a peer against a real endpoint; rows with dates beyond the calendar
+    frame_streams(&mut rng, &mut out, &mut stats).await;
+    ingest_date_stream(&mut rng, &mut out, &mut stats).await;
     // ---- streams without a model verdict (b, d ingestion, e)
     observed_streams(&mut rng, &mut out, &mut stats).await;
 
